@@ -276,17 +276,18 @@ def run(res, replay=None):
                          "statement": "exit 0/1 and identical tree on consistent filesystems in every repair mode; summary-only damage is repaired without changing any file"}
     res.cov["rule"] = ("healthy: 6 feature sets x 5 repair modes x 2 populations; summary-only damage: 1-2 of bitmap bit flips, descriptor count changes, checksum-field damage; non-trivial: every case")
     res.add_obligation("packing model = rebuilt directories", not drifts)
-    def sig(recipe):
+    def sig(recipe, problems=()):
         ops = " ".join(recipe.get("operators", []))
-        # no backup superblock where e2fsck looks for one: non-default group size, or a single group
-        if "superblock checksum field damaged" in ops and ("-g" in recipe.get("mke2fs", []) or recipe.get("groups") == 1):
+        # no backup superblock where e2fsck looks for one: non-default group size, or a single group - the repair run
+        # gives up before it starts (exit 8); any other outcome on such an image is not this finding
+        if "superblock checksum field damaged" in ops and ("-g" in recipe.get("mke2fs", []) or recipe.get("groups") == 1) and "e2fsck -fy exits 8" in problems:
             return "c05:sb-csum-damaged-nondefault-group-size"
         if recipe.get("only_uninit_shadow"):
             return "c05:uninit-group-metadata-bit-clear-on-disk"
         return "c05:" + hashlib.sha256(json.dumps(recipe).encode()).hexdigest()[:12]
-    bad.sort(key=lambda x: 1 if sig(x[0]).startswith(("c05:sb-", "c05:uninit-")) else 0)
+    bad.sort(key=lambda x: 1 if sig(x[0], x[1]).startswith(("c05:sb-", "c05:uninit-")) else 0)
     for recipe, problems in bad[:3]:
-        res.violation("oracle", {"recipe": recipe, "problems": problems[:5]}, signature=sig(recipe))
+        res.violation("oracle", {"recipe": recipe, "problems": problems[:5]}, signature=sig(recipe, problems))
     if drifts and not bad:
         res.violation("correspondence", {"recipe": drifts[0][0], "drift": drifts[0][1],
                                          "note": "rebuilt directory blocks differ from the packing model; files and consistency are unaffected on every generated case"}, has_input=False)
